@@ -240,6 +240,7 @@ func CmdCheck(args []string) int {
 	inBaseline := map[string]bool{}
 	for _, n := range baseline[*prop] {
 		inBaseline[n] = true
+		inBaseline[occBase(n)] = true // the same clause at another occurrence (#n) is the same named obligation
 	}
 
 	discharged, counted := 0, 0
@@ -283,7 +284,7 @@ func CmdCheck(args []string) int {
 		if !rp.Replayed {
 			suffix = " no-failing-input-found"
 		}
-		if inBaseline[o.Name] || rp.Replayed || len(baseline[*prop]) == 0 {
+		if inBaseline[o.Name] || inBaseline[occBase(o.Name)] || rp.Replayed || len(baseline[*prop]) == 0 {
 			violations = append(violations, fmt.Sprintf("VIOLATION property=%s replay=%s%s", *prop, rp.Path, suffix))
 		} else {
 			undecided = append(undecided, fmt.Sprintf("UNDECIDED property=%s obligation=%s status=%s (new obligation, no replay) replay=%s", *prop, o.Name, o.Status, rp.Path))
@@ -503,4 +504,22 @@ func CmdReplay(args []string) int {
 	fmt.Println(rf.ReplayNote)
 	fmt.Println(rf.SolverOut)
 	return 1
+}
+
+// occBase strips the occurrence suffix (#2, #3, ...) the generator appends when one clause gives
+// rise to several obligations (several back edges, call sites or paths).
+func occBase(n string) string {
+	i := strings.LastIndex(n, "#")
+	if i <= 0 {
+		return n
+	}
+	for _, c := range n[i+1:] {
+		if c < '0' || c > '9' {
+			return n
+		}
+	}
+	if i+1 == len(n) {
+		return n
+	}
+	return n[:i]
 }
